@@ -733,21 +733,21 @@ theorem recoverWal_spec (m1 : Mem) (ft : Nat) (hok : AllOk m1.frames.length m1.p
     exact ⟨Quiet.of_skel hs hq, by rw [hs.frames, hp]; rfl⟩
   · obtain ⟨ma, δ, h1, hv, _, _⟩ := applyRecords_view m1 m1.pending true hok
     simp only [h1]
-    have hb : ((if δ.nonEmpty = true then ma.rebuildIndexes δ.embs δ.inserted ft else ma.flushTantivy ft)).frames.map view
+    have hb : ((if δ.nonEmpty = true then ma.rebuildIndexes δ.embs δ.inserted ft else ma.flushTantivy ft)).persistSketch.frames.map view
         = ma.frames.map view := by
+      show ((if δ.nonEmpty = true then ma.rebuildIndexes δ.embs δ.inserted ft else ma.flushTantivy ft)).frames.map view = _
       split
       · exact (rebuildIndexes_skel ma _ _ ft).frames
       · exact (flushTantivy_skel ma ft).frames
     refine ⟨⟨?_, rfl⟩, ?_⟩
     · intro r hr; cases hr
-    · show ((if δ.nonEmpty = true then ma.rebuildIndexes δ.embs δ.inserted ft else ma.flushTantivy ft)).frames.map view = _
+    · show ((if δ.nonEmpty = true then ma.rebuildIndexes δ.embs δ.inserted ft else ma.flushTantivy ft)).persistSketch.frames.map view = _
       rw [hb, hv]
 
 theorem openFrom_spec (m : Mem) (ft : Nat) (hok : AllOk m.frames.length m.pending) :
     Quiet (m.openFrom ft) ∧ (m.openFrom ft).frames.map view = abs m := by
-  obtain ⟨hq, hf⟩ := recoverWal_spec m.openLoad ft hok rfl
-  have hs : SkelLex (m.openLoad.recoverWal ft).loadTracks (m.openLoad.recoverWal ft) := SkelLex.of_eq rfl rfl rfl
-  exact ⟨Quiet.of_skel hs hq, by rw [Mem.openFrom, hs.frames, hf]; rfl⟩
+  obtain ⟨hq, hf⟩ := recoverWal_spec m.openLoad.loadTracks ft hok rfl
+  exact ⟨hq, by rw [Mem.openFrom, hf]; rfl⟩
 
 theorem openFrom_abs (m : Mem) (ft : Nat) (hi : Inv m) : abs (m.openFrom ft) = abs m := by
   obtain ⟨hq, hf⟩ := openFrom_spec m ft hi.ok
@@ -844,28 +844,34 @@ theorem doctorRebuild_quiet (m : Mem) (rv : Bool) (ft : Nat) (hq : Quiet m) :
 theorem doctor_sim (m : Mem) (vac rt rl rv : Bool) (a b c d : Nat) (hi : Inv m) :
     Quiet (m.doctor vac rt rl rv a b c d).1 ∧ abs (m.doctor vac rt rl rv a b c d).1 = abs m := by
   have hd := dropHandle_inv m a hi
-  obtain ⟨hq0, hf0⟩ := openFrom_spec (m.dropHandle a) b hd.ok
-  have ha0 : abs ((m.dropHandle a).openFrom b) = abs m := by
-    rw [openFrom_abs _ b hd, dropHandle_abs m a hi]
-  -- stage 1
-  have h1 : Quiet (m.doctorStage1 vac a b c) ∧ abs (m.doctorStage1 vac a b c) = abs m := by
-    unfold Mem.doctorStage1
-    split
-    · exact ⟨vacuum_quiet _ b c hq0, (vacuum_sim _ b c hq0.inv).2.trans ha0⟩
-    · exact ⟨hq0, ha0⟩
-  -- stage 2
-  have h2 : Quiet ((m.doctorStage1 vac a b c).doctorStage2 (rt || rl || rv) rv c) ∧
-      abs ((m.doctorStage1 vac a b c).doctorStage2 (rt || rl || rv) rv c) = abs m := by
-    unfold Mem.doctorStage2
-    split
-    · obtain ⟨q, e⟩ := doctorRebuild_quiet _ rv c h1.1
-      exact ⟨q, e.trans h1.2⟩
-    · exact h1
-  have hd2 := dropHandle_inv _ c h2.1.inv
-  obtain ⟨hq3, hf3⟩ := openFrom_spec _ d hd2.ok
-  refine ⟨hq3, ?_⟩
-  show abs ((((m.doctorStage1 vac a b c).doctorStage2 (rt || rl || rv) rv c).dropHandle c).openFrom d) = _
-  rw [openFrom_abs _ d hd2, dropHandle_abs _ c h2.1.inv, h2.2]
+  unfold Mem.doctor
+  split
+  · obtain ⟨hq0, hf0⟩ := openFrom_spec (m.dropHandle a) b hd.ok
+    have ha0 : abs ((m.dropHandle a).openFrom b) = abs m := by
+      rw [openFrom_abs _ b hd, dropHandle_abs m a hi]
+    -- stage 1
+    have h1 : Quiet (m.doctorStage1 vac a b c) ∧ abs (m.doctorStage1 vac a b c) = abs m := by
+      unfold Mem.doctorStage1
+      split
+      · exact ⟨vacuum_quiet _ b c hq0, (vacuum_sim _ b c hq0.inv).2.trans ha0⟩
+      · exact ⟨hq0, ha0⟩
+    -- stage 2
+    have h2 : Quiet ((m.doctorStage1 vac a b c).doctorStage2 (rt || rl || rv) rv c) ∧
+        abs ((m.doctorStage1 vac a b c).doctorStage2 (rt || rl || rv) rv c) = abs m := by
+      unfold Mem.doctorStage2
+      split
+      · obtain ⟨q, e⟩ := doctorRebuild_quiet _ rv c h1.1
+        exact ⟨q, e.trans h1.2⟩
+      · exact h1
+    have hd2 := dropHandle_inv _ c h2.1.inv
+    obtain ⟨hq3, hf3⟩ := openFrom_spec _ d hd2.ok
+    refine ⟨hq3, ?_⟩
+    show abs ((((m.doctorStage1 vac a b c).doctorStage2 (rt || rl || rv) rv c).dropHandle c).openFrom d) = _
+    rw [openFrom_abs _ d hd2, dropHandle_abs _ c h2.1.inv, h2.2]
+  · obtain ⟨hq, hf⟩ := openFrom_spec (m.dropHandle a) d hd.ok
+    refine ⟨hq, ?_⟩
+    show abs ((m.dropHandle a).openFrom d) = _
+    rw [openFrom_abs _ d hd, dropHandle_abs m a hi]
 
 /-! ## G. The simulation theorem -/
 
